@@ -33,13 +33,56 @@ def make_replay(prop):
                                 flags=["-fsanitize=thread", "-O1"], timeout=300)
     return rp
 
+# class-level frame argument: a const member function can write only (i) `mutable` members, (ii) through const_cast,
+# (iii) function-static / global variables; everything else is rejected by the C++ compiler.  The scan below lists every
+# such escape hatch in the sparse-grid sources; each one must be in the table with the reason why it is harmless in the
+# default (no GPU) acceleration mode -- or be under a contract (inter_matrix: F12, a known finding).
+MUTABLE_OK = {
+    "acc_domain": "GPU domain-transform cache, only touched when a GPU backend is active",
+    "engine": "GPU engine handle of the acceleration context",
+    "gpu_cache": "GPU data cache, only filled by the *GPU methods",
+    "gpu_cachef": "GPU data cache (float), only filled by the *GPU methods",
+    "inter_matrix": "CPU cache written by const wavelet queries: under contract F12 (known finding D5)",
+}
+def static_frame_job(prop):
+    import glob, os, re
+    files = sorted(glob.glob(os.path.join(X.REPO, "SparseGrids", "*.hpp")) + glob.glob(os.path.join(X.REPO, "SparseGrids", "tsg*.cpp")) + glob.glob(os.path.join(X.REPO, "SparseGrids", "TasmanianSparseGrid*.cpp")))
+    mut, ccast, stat = [], [], []
+    for f in files:
+        rel = os.path.relpath(f, X.REPO)
+        text = X.strip_comments(X.read_source(rel))
+        for m in re.finditer(r'\bmutable\b[^;(){}]*?(\w+)\s*;', text):
+            mut.append((rel, text.count("\n", 0, m.start()) + 1, m.group(1)))
+        for m in re.finditer(r'\bconst_cast\s*<', text):
+            ccast.append((rel, text.count("\n", 0, m.start()) + 1))
+        for m in re.finditer(r'(?<![\w])static\s+(?!const\b|constexpr\b|inline\b)(?:thread_local\s+)?[\w:<>,\s\*&]+?\s+\*?(\w+)\s*(?:=[^;(){}]*|\([^;(){}]*\))?;', text):
+            # a static *data* declaration (no parameter list of a function declaration): inside a function body or a class
+            decl = m.group(0)
+            if re.search(r'\)\s*(const)?\s*;$', decl) and not re.search(r'=\s*', decl):
+                continue
+            stat.append((rel, text.count("\n", 0, m.start()) + 1, m.group(1)))
+    bad_mut = [x for x in mut if x[2] not in MUTABLE_OK]
+    if len(mut) < 5:
+        raise X.ExtractionBreak("static frame scan found only %d mutable members: the scan no longer matches the sources" % len(mut))
+    def lst(v): return "; ".join("%s:%d %s" % (a[0], a[1], a[2] if len(a) > 2 else "") for a in v[:6]) or "none"
+    ctext = ('#include "tsg_shim.h"\nint tsg_exc;\nvoid h_static_frame(void){\n'
+             '  __CPROVER_assert(%d == 0, "F12s every mutable member of the sparse-grid classes is a listed cache (new: %s)");\n' % (len(bad_mut), lst(bad_mut)) +
+             '  __CPROVER_assert(%d == 0, "F12s no const_cast in the sparse-grid sources (found: %s)");\n' % (len(ccast), lst(ccast)) +
+             '  __CPROVER_assert(%d == 0, "F12s no function-static or class-static mutable data in the sparse-grid sources (found: %s)");\n' % (len(stat), lst(stat)) +
+             '  __CPROVER_assert(0, "VACUITY-CANARY");\n}\n')
+    info = {"functions": [], "rules_fired": {"scan-mutable": len(mut), "scan-const_cast": len(ccast), "scan-static-data": len(stat)},
+            "drops": ["this job is a syntactic scan of the sources (supporting static fact), decided by the extractor; CBMC only evaluates the three counts"]}
+    return Job("wavelet.static_frame", ctext, "h_static_frame", timeout=60, functions=["SparseGrids/*.hpp, SparseGrids/tsg*.cpp: %d mutable members, %d const_cast, %d static data" % (len(mut), len(ccast), len(stat))], info=info,
+               assumed=["C++ const-correctness is enforced by the compiler for everything that is not mutable, const_cast or static"],
+               label="class-level frame: the only ways a const member function can write (mutable members, const_cast, static data) are all listed")
+
 def jobs(tier, seed, prop):
     cf = ContractFile("contracts/wavelet.c")
     R = X.Rules()
     t, info = wavelet.emit(R, cf.contracts())
     npmax = 3 if tier == "quick" else 5
     pre = '#include "tsg_shim.h"\nint tsg_exc;\n#define TSG_NPMAX %d\n#line 1 "/verif/contracts/wavelet.c"\n' % npmax + cf.text(("text", "stub")) + t
-    out = []
+    out = [static_frame_job(prop)]
     stubs = ["GridWavelet_evalIntegral", "GridWavelet_evalBasis", "GridWavelet_evalDiffBasis", "WaveletBasisMatrix_getNumRows", "WaveletBasisMatrix_invertTransposed", "GridWavelet_buildInterpolationMatrix"]
     for f in info["functions"]:
         nm = f["name"].split("::")[1]
